@@ -462,6 +462,14 @@ var optimizerRewriteSets = map[string][]string{
 	"deadcode": {"OpJumpIfFalse", "OpJump", "OpReturn"},
 }
 
+// optimizerWriteSets: per pass, the opcodes it may write into the program.
+var optimizerWriteSets = map[string]map[string]bool{
+	"fold":     {"OpNop": true, "OpTrue": true, "OpFalse": true},
+	"jumps":    {"OpNop": true},
+	"nops":     {},
+	"deadcode": {"OpReturn": true},
+}
+
 func ruleOptClosed(p *Program, r *Reporter) {
 	vmPk := p.ByPath[Mod+"/vm"]
 	info := vmPk.TypesInfo
@@ -551,6 +559,38 @@ func ruleOptClosed(p *Program, r *Reporter) {
 				}
 			}
 			sort.Strings(extra)
+			// the opcodes the pass writes: byte(code.OpX) anywhere in it
+			written := map[string]bool{}
+			var firstWrite ast.Node
+			ast.Inspect(fd.Body, func(n ast.Node) bool {
+				ce, ok := n.(*ast.CallExpr)
+				if !ok || len(ce.Args) != 1 {
+					return true
+				}
+				if tv, ok := info.Types[ce.Fun]; !ok || !tv.IsType() {
+					return true
+				}
+				if o := opConstName(info, ce.Args[0]); o != "" {
+					written[o] = true
+					if !optimizerWriteSets[pass][o] && firstWrite == nil {
+						firstWrite = ce
+					}
+				}
+				return true
+			})
+			wkey := fmt.Sprintf("optimizer pass in %s writes only checked opcodes", fd.Name.Name)
+			if firstWrite != nil {
+				var ws []string
+				for o := range written {
+					if !optimizerWriteSets[pass][o] {
+						ws = append(ws, o)
+					}
+				}
+				sort.Strings(ws)
+				r.Undecided(wkey, p.Pos(firstWrite.Pos()), "the "+pass+" pass writes "+strings.Join(ws, ", ")+" into the program: no rule here checks an instruction of that kind when it is the optimizer that emits it (its effect on the stack, the validity of its operand — a constant reference has to name a constant of the pool the compiler built, which Dump and the driver index too)")
+			} else {
+				r.OkNT(wkey, p.Pos(sw.Pos()), pass+" pass writes: "+setStr(written))
+			}
 			if len(extra) > 0 {
 				r.Undecided(key, p.Pos(sw.Pos()), "the "+pass+" pass also rewrites around "+strings.Join(extra, ", ")+": no rule here checks that rewrite against the VM's semantics (is it an identity for values of every type and origin?), so optimizer transparency is undecided")
 			} else {
